@@ -503,6 +503,17 @@ func runWorkers(b built, id, tier string, seed uint64, nw int, secs float64, max
 		}(i)
 	}
 	wg.Wait()
+	// a violation found by any worker outweighs a determinism self-test divergence noted by another
+	for _, r := range results {
+		if r != nil && r.Violation != nil {
+			for i := range results {
+				if results[i] == nil {
+					results[i] = &workerResult{Faults: map[string]int64{}, Probes: map[string]int64{}}
+				}
+			}
+			return results, ""
+		}
+	}
 	for _, e := range errs {
 		if e != "" {
 			return nil, e
